@@ -96,7 +96,7 @@ impl Scenario for EcdsaNet {
         }
     }
 
-    fn generate(&self, rng: &mut Rng, tier: Tier) -> Plan {
+    fn generate(&self, rng: &mut Rng, tier: Tier, _index: u64) -> Plan {
         let keys: Vec<String> = (0..3).map(|_| gen_key(rng)).collect();
         let n = rng.range(3, 14);
         let mut events = vec![];
